@@ -86,6 +86,13 @@ func Bucket() (string, *fakes3.Store) {
 	return name, st
 }
 
+// StoreOf returns the store registered under a bucket name.
+func StoreOf(name string) *fakes3.Store {
+	mu.Lock()
+	defer mu.Unlock()
+	return stores[name]
+}
+
 func DropBucket(name string) {
 	mu.Lock()
 	delete(stores, name)
